@@ -38,8 +38,8 @@ EXTENDS TopologyGuards, Json
 
 CONSTANTS
     NPods,        \* pods per batch
-    Archs,        \* archetype ids the batch is drawn from (subset of 1..32)
-    Layouts,      \* existing-state ids (subset of 0..13)
+    Archs,        \* archetype ids the batch is drawn from (subset of 1..36)
+    Layouts,      \* existing-state ids (subset of 0..14)
     MaxClaims,    \* new NodeClaims per pass
     W_AllDomains, W_Inverse, W_Certain, W_Bootstrap, W_Slack, W_Exclude, W_MatchKeys, W_MinDomains, W_Policies,
     W_Guard       \* TRUE: placements are guarded; FALSE (Topology_Free.cfg): ANY placement - exercises both directions of Inv_C02_Forms
@@ -62,6 +62,7 @@ Pools == <<[name |-> "P1", weight |-> 0, reqs |-> <<>>, labels |-> <<>>, taints 
 Dedicated == [key |-> "dedicated", value |-> "infra", effect |-> "NoSchedule"]
 TolDedicated == [key |-> "dedicated", op |-> "Equal", value |-> "infra", effect |-> "NoSchedule"]
 
+E(k, op, vals) == [key |-> k, op |-> op, vals |-> vals, n |-> 0]
 Term(key, app) == [key |-> key, sel |-> [app |-> app], ns |-> <<>>, nsAll |-> FALSE, nsSel |-> <<>>, weight |-> 0]
 Spr(key, skew) == [key |-> key, maxSkew |-> skew, minDomains |-> 0, when |-> "DoNotSchedule", sel |-> [app |-> "s"], affPol |-> "", taintPol |-> "", matchKeys |-> <<>>]
 P0(name) == [name |-> name, ns |-> "default", node |-> "", owner |-> "", cpu |-> 400, mem |-> 64, created |-> 0, labels |-> <<>>,
@@ -106,6 +107,12 @@ Arch(a, name) ==
       [] a = 30 -> [App(p, "g") EXCEPT !.aff = <<Term("zone", "d")>>]                  \* affinity to app=d carried by a pod it does not match
       [] a = 31 -> [App(p, "d") EXCEPT !.aff = <<Term("zone", "d")>>]                  \* the SAME affinity term carried by a pod it matches
       [] a = 32 -> [App(p, "n") EXCEPT !.spread = <<Spr("zone", 1)>>]                  \* the spread constraint of 7 carried by a pod it does not select
+      \* spread pods with several DIFFERENT required node-affinity terms (OR): disjoint / overlapping / one unsatisfiable, Honor and Ignore
+      [] a = 33 -> [App(p, "s") EXCEPT !.spread = <<Spr("zone", 1)>>, !.terms = <<<<E("zone", "In", <<"a">>)>>, <<E("zone", "In", <<"b">>)>>>>]
+      [] a = 34 -> [App(p, "s") EXCEPT !.spread = <<Spr("zone", 1)>>, !.terms = <<<<E("zone", "In", <<"a", "b">>)>>, <<E("zone", "In", <<"b">>)>>>>]
+      [] a = 35 -> [App(p, "s") EXCEPT !.spread = <<Spr("zone", 1)>>, !.terms = <<<<E("zone", "In", <<"~">>)>>, <<E("zone", "In", <<"a", "b">>)>>>>]
+      [] a = 36 -> [App(p, "s") EXCEPT !.spread = <<[Spr("zone", 1) EXCEPT !.affPol = "Ignore"]>>,
+                                       !.terms = <<<<E("zone", "In", <<"b">>)>>, <<E("zone", "In", <<"a">>)>>>>]
 PodName(i) == "w" \o ToString(i)
 Batches == {s \in [1..NPods -> Archs] : \A i \in 1..(NPods - 1) : s[i] <= s[i + 1]}
 
@@ -137,6 +144,7 @@ Layout(i) ==
       [] i = 10 -> [nodes |-> <<N1, N2>>, pods |-> <<[App(R0("r1", "n1"), "g") EXCEPT !.anti = <<Term("host", "d")>>]>>]    \* running guard (hostname)
       [] i = 11 -> [nodes |-> <<N1, N2>>, pods |-> <<[App(R0("r1", "n1"), "d") EXCEPT !.anti = <<Term("host", "d")>>]>>]    \* running db (hostname)
       [] i = 12 -> [nodes |-> <<N1>>, pods |-> <<[App(R0("r1", "n1"), "g") EXCEPT !.anti = <<Term("zone", "d")>>]>>]        \* running guard (zone)
+      [] i = 14 -> [nodes |-> <<N1, N2>>, pods |-> <<App(R0("r1", "n1"), "s"), App(R0("r2", "n2"), "s")>>]                    \* app=s running in both zones
       [] i = 13 -> [nodes |-> <<N1, N2>>, pods |-> <<App(R0("r1", "n1"), "d"), [App(R0("r2", "n2"), "n") EXCEPT !.spread = <<Spr("zone", 1)>>]>>]  \* running app=d / non-selected carrier
 
 Scenario(lay, batch) ==
